@@ -52,6 +52,9 @@ def run(ctx):
                 elif outcome[1] != want:
                     ctx.add("oracle", "wrong-class:" + sig.split("->")[0], "a file whose %s is rejected with %s, not %s" % (sig, outcome[1], want),
                             {"tag": sig, "file": r[2].hex()})
+    # AuxData UUID / Offset entries across modules (tables of every size on every container, naming earlier / same / later modules)
+    from props import c07 as _c07
+    _c07.cross_module_tables(ctx, g, ctx.rng, 6 if ctx.quick else 120)
     batch.run()
     ctx.cov["faults_injected"] = nfaults
     ctx.cov["traces_validated_against_impl"] = n_rt + n_r + nfaults
